@@ -2,6 +2,7 @@
 From Coq Require Import List NArith Bool.
 From AdltV Require Import Base.Obs Base.Res Base.MachInt Plugins.Chain Plugins.Anon.
 From AdltV Require Export Plugins.Decoders.   (* the shards name the answer constructors *)
+From AdltV Require Import Plugins.MuniicCfg.
 From AdltV Require Lifecycle.Model.
 Import ListNotations.
 Open Scope N_scope.
@@ -206,6 +207,39 @@ Fixpoint segs_stream (start : N) (l : list seg) : list msg :=
   | s :: r => map (fun i => seg_msg start s (N.of_nat i)) (seq 0 (N.to_nat (seg_len s))) ++ segs_stream (start + seg_len s) r
   end.
 
+(* ---------------------------------------------------------------- Muniic configuration messages *)
+(* per message the plugin sees: answer of the MMSG decoding, Display and Debug rendering of msg.ecu,
+   msg.payload_as_text() (None: Err, or not computed because the ctid is neither MDLT nor MMSG) *)
+Definition mcfg_info := (text_answer * list N * list N * option (list N))%type.
+Definition MI (a : text_answer) (disp dbg : list N) (pt : option (list N)) : mcfg_info := (a, disp, dbg, pt).
+
+(* the Muniic plugin alone in the loop, with the regex of the source (MuniicCfg.cfg_re):
+   (delivered, how the loop ended, configuration state at that point) *)
+Fixpoint mcfg_run (known : list N -> bool) (st : cfg_st) (l : list (msg * mcfg_info)) : list msg * option N * cfg_st :=
+  match l with
+  | [] => ([], None, st)
+  | (m, (a, disp, dbg, pt)) :: r =>
+      match muniic_process (rsearch cfg_re) known a disp dbg pt st m with
+      | Ok (st', (m', b)) =>
+          match mcfg_run known st' r with (outs, e, stf) => (if b then m' :: outs else outs, e, stf) end
+      | Panic s => ([], Some s, st)
+      | OutOfFuel => ([], Some 0, st)
+      end
+  end.
+
+(* String::cmp = bytewise *)
+Fixpoint text_leb (a b : list N) : bool :=
+  match a, b with
+  | [], _ => true
+  | _ :: _, [] => false
+  | x :: a', y :: b' => if x <? y then true else if y <? x then false else text_leb a' b'
+  end.
+Fixpoint ins_text (x : list N) (l : list (list N)) : list (list N) :=
+  match l with
+  | [] => [x]
+  | y :: r => if text_leb x y then x :: l else y :: ins_text x r
+  end.
+
 (* ---------------------------------------------------------------- cases *)
 Inductive case_C19 :=
 | CLoop (scripts : list (N * list action)) (cap : option N) (ms : list msg)
@@ -214,6 +248,9 @@ Inductive case_C19 :=
 | CAnonSeg (segs : list seg)
 | CFrame (allow_ts : bool) (ins : list (msg * bool))
 | CDec (chain : list dspec) (ms : list msg)
+(* Muniic alone: source text of the config regex as found in src/plugins/muniic.rs, model hashes of the JSON
+   configuration, warnings and generation of the plugin state before the run, the stream *)
+| CMcfg (re_source : list N) (known : list (list N)) (warns0 : list (list N)) (gen0 : N) (ms : list (msg * mcfg_info))
 | CEquiv (orig anon : list lc_spec).
 
 Definition o_loop (r : option msg * list plugin * list msg) : otree :=
@@ -247,6 +284,13 @@ Definition run_C19 (c : case_C19) : otree :=
   | CAnonSeg segs => o_anon_ids (anon_run true anon_init (segs_stream 0 segs))
   | CFrame _ _ => T []
   | CDec chain ms => T [L 0; T (map o_msg (snd (process (map dec_plugin chain) ms)))]
+  | CMcfg _ known warns0 gen0 ms =>
+      match mcfg_run (contains known) {| s_cfgs := []; s_warns := warns0; s_gen := gen0 |} ms with
+      | (outs, e, st) =>
+          T [T (map o_msg outs); L (match e with None => 0 | Some _ => 1 end);
+             T (map o_bytes (fold_right ins_text [] (map cfg_label (s_cfgs st))));
+             T (map o_bytes (s_warns st)); L (s_gen st)]
+      end
   | CEquiv a b => T [o_detect true a; o_detect true b]
   end.
 
@@ -271,5 +315,8 @@ Definition agree_C19 (c : case_C19) (o : otree) : bool :=
           end
       | _ => false
       end
+  | CMcfg src _ _ _ _ =>
+      (* the regex of the model is the regex written in the source, and the run is the model's run *)
+      text_eqb (re_src cfg_re) src && otree_eqb (run_C19 c) o
   | _ => otree_eqb (run_C19 c) o
   end.
